@@ -798,11 +798,26 @@ void run_program(vh::Reader &rd, Env &e, ThreadResult &res, const std::string &l
         ActiveEntry a;
         otel::nostd::shared_ptr<tr::Span> fs;
         std::string what;
+        bool twin = false;
         switch (rd.weighted({4, 3, 1}))
         {
           case 0:
           {
             tr::SpanContext p = sg::gen_span_context(rd, true);
+            // A TWIN of the span that is active now: same trace id, span id and flags, but another object with
+            // another trace state and the other remote-ness (a middleware that rewrites the tracestate of the
+            // extracted parent and activates the result).  SpanContext::operator== ignores both, so a Scope that
+            // "recognises" the active span must still activate the twin.  Decided from the drawn id, no stream
+            // byte is read.  (Seeded C05-m11.)
+            if (!scopes.empty() && scopes.back().ctx.IsValid() && (p.span_id().Id()[7] & 3) == 0)
+            {
+              const tr::SpanContext &act = scopes.back().ctx;
+              std::string other_ts       = act.trace_state()->ToHeader() == "twin=1" ? "twin=2" : "twin=1";
+              p = tr::SpanContext(act.trace_id(), act.span_id(), act.trace_flags(), !act.IsRemote(),
+                                  tr::TraceState::FromHeader(other_ts));
+              twin = true;
+              res.tags.push_back("foreign-active-twin-of-active-span");
+            }
             learn(p);
             fs    = otel::nostd::shared_ptr<tr::Span>(new tr::DefaultSpan(p));
             a.ctx = p;
@@ -847,6 +862,11 @@ void run_program(vh::Reader &rd, Env &e, ThreadResult &res, const std::string &l
         auto cur = tr::Tracer::GetCurrentSpan()->GetContext();
         T_CHECK(same_identity(cur, want), "GetCurrentSpan() after activation is not the activated span: "
                                               << sg::show_ctx(cur) << ", expected " << sg::show_ctx(want));
+        if (twin)
+          T_CHECK(cur.IsRemote() == want.IsRemote() && cur.trace_state()->ToHeader() == want.trace_state()->ToHeader(),
+                  "GetCurrentSpan() after activating a twin of the active span (same ids and flags, other trace state) "
+                  "is still the earlier span: "
+                      << sg::show_ctx(cur) << ", expected " << sg::show_ctx(want));
       }
       else
       {
